@@ -157,6 +157,16 @@ func Main(r *report.Run, phases []Phase) {
 			if chunk > 2_000_000 {
 				chunk = 2_000_000
 			}
+			if r.Thorough() {
+				// the deadline is looked at between chunks: smaller chunks in the long tier, where
+				// a chunk of costly cases otherwise runs for half an hour past the deadline
+				if c := ph.Len / int64(ncpu*48); c >= 1 && c < chunk {
+					chunk = c
+				}
+				if chunk > 250_000 {
+					chunk = 250_000
+				}
+			}
 		}
 		type job struct{ a, b int64 }
 		jobs := make(chan job, 1024)
